@@ -260,3 +260,44 @@ func init() {
 		f.boolFact("indexTableChecksKeyAndWidth", pkChecked && widthChecked)
 	})
 }
+
+func init() {
+	extra = append(extra, func(f *Facts) {
+		// C09: a fetch that retries after a stream error drops the interrupted session's cookie first
+		ff := f.funcDecl("cmd/wrgl/fetch/root.go", "", "Fetch")
+		resets := false
+		if ff != nil {
+			ast.Inspect(ff.Body, func(n ast.Node) bool {
+				is, ok := n.(*ast.IfStmt)
+				if !ok || !strings.Contains(f.src(is.Cond), "isStreamError") {
+					return true
+				}
+				sawReset, sawContinue := false, false
+				ast.Inspect(is.Body, func(m ast.Node) bool {
+					if c, ok := m.(*ast.CallExpr); ok && strings.HasSuffix(f.src(c.Fun), ".ResetCookies") {
+						sawReset = true
+					}
+					if b, ok := m.(*ast.BranchStmt); ok && b.Tok == token.CONTINUE {
+						if sawReset {
+							sawContinue = true
+						}
+					}
+					return true
+				})
+				resets = sawReset && sawContinue
+				return true
+			})
+		}
+		f.boolFact("fetchRetryResetsCookies", resets)
+		// C16: the lazily created progress bar objects are created under a lock
+		locked := func(rel, recv, name string) bool {
+			fd := f.funcDecl(rel, recv, name)
+			if fd == nil || len(fd.Body.List) == 0 {
+				return false
+			}
+			first := f.src(fd.Body.List[0])
+			return strings.HasSuffix(first, ".mu.Lock()")
+		}
+		f.boolFact("pbarLazyInitLocked", locked("pkg/pbar/bar.go", "bar", "ensureInternalBar") && locked("pkg/pbar/progress.go", "Container", "ensureProgress"))
+	})
+}
